@@ -446,7 +446,19 @@ func cpCallerLandmarks(fd *ast.FuncDecl, rv string) (marks []string, cmdVars map
 					branch = "write-failure"
 				default:
 					prev := cpPrevStmt(fd.Body, in)
-					if prev != nil && cpContainsCall(prev, isWrite) {
+					wrote := false
+					for q, n := prev, 0; q != nil && n < 6; q, n = cpPrevStmt(fd.Body, q), n+1 {
+						// the write may stand a few statements earlier in the same block (a retry loop
+						// `x = write(); if ok { break }; if <give up> { done; return }`; harmless seed C02-H2)
+						if cpContainsCall(q, isWrite) {
+							wrote = true
+							break
+						}
+						if cpContainsCall(q, isPre) {
+							break
+						}
+					}
+					if wrote {
 						branch = "write-failure"
 					} else if prev != nil && cpContainsCall(prev, isPre) && cpContainsCall(in.Cond, func(c *ast.CallExpr) bool { return cpLast(cpChain(c.Fun)) == "OK" }) {
 						branch = "veto"
@@ -690,7 +702,26 @@ func cpBindReply(fd *ast.FuncDecl, rv string) (key string, marks []string, exits
 			}
 		}
 	}
-	isCmdMu := func(ch []string, op string) bool { return cpEq(ch, rv, "callCmd", "mu", op) }
+	// locals that ARE the bound command: `cmd := v.(*callCmd); c.callCmd = cmd` or `cmd := c.callCmd`
+	cmdAlias := map[string]bool{}
+	ast.Inspect(fd.Body, func(n ast.Node) bool {
+		as, ok := n.(*ast.AssignStmt)
+		if !ok || len(as.Lhs) != len(as.Rhs) {
+			return true
+		}
+		for i := range as.Lhs {
+			if id, ok := as.Rhs[i].(*ast.Ident); ok && cpEq(cpChain(as.Lhs[i]), rv, "callCmd") {
+				cmdAlias[id.Name] = true
+			}
+			if id, ok := as.Lhs[i].(*ast.Ident); ok && cpEq(cpChain(as.Rhs[i]), rv, "callCmd") {
+				cmdAlias[id.Name] = true
+			}
+		}
+		return true
+	})
+	isCmdMu := func(ch []string, op string) bool {
+		return cpEq(ch, rv, "callCmd", "mu", op) || (len(ch) == 3 && cmdAlias[ch[0]] && ch[1] == "mu" && ch[2] == op)
+	}
 	var lockPos token.Pos
 	nLoad := 0
 	cpWalk(fd.Body, nil, func(n ast.Node, stack []ast.Node) {
@@ -913,8 +944,13 @@ func cpHandleReply(fd *ast.FuncDecl, rv string) (prefix, deferred []string, why 
 	return
 }
 
-// cpCompletion: callCmd.done / callCmd.cancel.
-func cpCompletion(fd *ast.FuncDecl, rv string) []string {
+// cpCompletion: callCmd.done / callCmd.cancel. A call of another method of the same receiver (a shared
+// tail extracted from both, harmless seed C02-H2) is read in place, one level.
+var cpCompletionPkg *Pkg
+
+func cpCompletion(fd *ast.FuncDecl, rv string) []string { return cpCompletionAt(fd, rv, 0) }
+
+func cpCompletionAt(fd *ast.FuncDecl, rv string, depth int) []string {
 	var marks []string
 	cpWalk(fd.Body, func(n ast.Node, stack []ast.Node) bool {
 		if _, ok := n.(*ast.ReturnStmt); ok {
@@ -949,6 +985,15 @@ func cpCompletion(fd *ast.FuncDecl, rv string) []string {
 				marks = append(marks, q+"callWG.add")
 			case cpEq(ch, rv, "done") || cpEq(ch, rv, "cancel"):
 				marks = append(marks, q+"recursive:"+cpLast(ch))
+			case len(ch) == 2 && ch[0] == rv && depth == 0 && cpCompletionPkg != nil:
+				if h := cpCompletionPkg.Func("callCmd", ch[1]); h != nil && recvVarName(h) != "" {
+					for _, m := range cpCompletionAt(h, recvVarName(h), depth+1) {
+						if q == "?" && !strings.HasPrefix(m, "?") {
+							m = "?" + m
+						}
+						marks = append(marks, m)
+					}
+				}
 			}
 		}
 	})
@@ -1048,6 +1093,7 @@ func genCallPath(r *Repo, l *Lean) {
 		}
 	}
 	// --- done / cancel
+	cpCompletionPkg = p
 	for _, m := range []string{"done", "cancel"} {
 		if fd, rv := need("callCmd", m); fd != nil {
 			l.StrList("callCmd_"+m, "landmarks of callCmd."+m+" (`?` = conditional)", cpCompletion(fd, rv))
